@@ -278,16 +278,18 @@ CHECKS = {
             dict(name="c07_radial_header_mapping", what="radial() == into_radial() and every reported field (numbers, angles, spacing, one-to-one status, timestamp) for all 32 header bytes"),
             dict(name="c07_radial_moment_wiring", what="every subset of the seven moments: each model moment built from its own block (distinct symbolic scale/offset), absent stays absent, both conversions agree"),
             dict(name="c07_radial_moment_bytes", bounded="2 gates", what="gate bytes carried unchanged into the model radial by both conversions"),
-            dict(name="c07_values_levels_agree", bounded="1 gate; scale in {0, 2, 300, 2.8361, 1e-39, -0.5}", tier="thorough", what="decode level == model level bit for bit; all 256 raws, all finite offsets"),
             dict(name="c07_values_formula_points", bounded="1 gate; 5 concrete (scale, offset) points", what="sentinels 0/1, (raw-offset)/scale, scale 0 rule at the decode AND the model level (bit for bit); all 256 raws"),
-            dict(name="c07_values_formula_1gate", bounded="1 gate (8-bit words)", tier="thorough", what="same for ALL finite scale/offset pairs"),
-            dict(name="c07_values_formula_2gates", bounded="2 gates (8-bit words)", tier="thorough", what="same, two gates"),
             dict(name="c07_values_one_per_gate_16bit", bounded="2 gates (16-bit words)", what="exactly one value per gate for 16-bit moments (KNOWN FINDING on the current tree)"),
         ])],
         trusted_base=KANI_TRUST + ["IEEE-754 arithmetic as modelled by CBMC (bit-precise)"],
-        not_decided=["gate counts above 2-3 (bounded: the bound only limits std's map/collect unrolling)"],
-        explanation="Radial mapping proved over every header and every moment subset; value conversion complete in raw value, "
-                    "scale and offset but bounded in gate count.",
+        not_decided=["gate counts above 2-3 (bounded: the bound only limits std's map/collect unrolling)",
+                     "value conversion for (scale, offset) pairs other than the five concrete points: harnesses with symbolic scale "
+                     "and offset (symbolic f32 division) did not finish in 40 min each and were withdrawn; the five points cover "
+                     "scale 0, integral, fractional, subnormal and negative scales",
+                     "16-bit moments: see the known finding"],
+        explanation="Radial mapping proved over every header and every moment subset (complete); value conversion proved for all "
+                    "256 raw values at five concrete (scale, offset) points, at the decode and the model level bit for bit "
+                    "(bounded: one gate, five points); gate bytes carried unchanged (bounded: two gates).",
     ),
     "C04": dict(
         verus=[dict(unit="framing"), dict(unit="drd_decode"), dict(unit="vcp_decode"), dict(unit="cfm_decode")],
